@@ -600,7 +600,8 @@ pub fn check(img: &Image, raw: &[u8]) -> CheckResult {
                 if okfield {
                     let k = (e.name_len / 2 - 1) as usize;
                     rule!(e.units[k] == 0, "name_terminated", "entry {} name not NUL-terminated", id);
-                    rule!(e.units[..k].iter().all(|&u| u != 0), "name_no_inner_nul", "entry {} has NUL inside its name", id);
+                    // U+0000 inside the counted name is not an illegal character (MS-CFB 2.6.1
+                    // lists / \\ : !) and the crate accepts it, so it is not a rule here
                     rule!(e.name().is_some(), "name_utf16", "entry {} name is not UTF-16", id);
                     if let Some(nm) = e.name() {
                         rule!(order::name_is_valid(&nm), "name_chars", "entry {} name {:?} has forbidden characters", id, nm);
